@@ -11,10 +11,11 @@ rm -rf $wt; git -C /repo worktree add -q --detach $wt HEAD || exit 3
 cd $wt
 res() { echo "CONFIRM $id/$k: $*"; }
 run_demo() { # run the demo test; prints PASS/FAIL
-  name=$(grep -o 'func Test[A-Za-z0-9_]*' $demo_path | head -1 | sed 's/func //')
+  name=$(echo "$demo_cmd" | grep -o '\-run [A-Za-z0-9_^$|]*' | head -1 | awk '{print $2}')   # the author's -run pattern (may cover several tests)
+  [ -z "$name" ] && name=$(grep -o 'func Test[A-Za-z0-9_]*' $demo_path | head -1 | sed 's/func //')
   pkg=./$(dirname $demo_path)/
   tags=""; grep -q 'go:build verif' $demo_path && tags="-tags verif"; echo "$demo_cmd" | grep -q -- '-tags verif' && tags="-tags verif"
-  if timeout 300 go test $tags -vet=off -count=1 -run "^$name\$" $pkg >/tmp/mut/demo_out.txt 2>&1; then echo PASS; else echo FAIL; fi
+  if timeout 300 go test $tags -vet=off -count=1 -run "$name" $pkg >/tmp/mut/demo_out.txt 2>&1; then echo PASS; else echo FAIL; fi
 }
 if ! git apply $p 2>/dev/null && ! patch -p1 -s --fuzz=3 --no-backup-if-mismatch < $p >/dev/null 2>&1; then res "patch does not apply"; cd /; git -C /repo worktree remove --force $wt; exit 1; fi
 if ! go build ./... 2>/dev/null; then res "does not build"; cd /; git -C /repo worktree remove --force $wt; exit 1; fi
